@@ -118,7 +118,7 @@ def from_arrays(
         raise Exception("Vertex array should have shape (n,3)")
     
     n_vert = V.shape[0]
-    m.vertices += list(V)
+    m.vertices += list(np.array(V)) # copy: the mesh should not keep views of the caller's array
     if E is not None:
         if np.any(np.asarray(E)>=n_vert): raise Exception("Edges indices should be between 0 and n_vertices")
         if E.shape[1]!=2: raise Exception("Edge array should have shape (n,2)")
